@@ -6,6 +6,7 @@
 package uu
 
 //@ config MaxInputLength
+//@ domain MaxInputLength >= 0
 //@ config Formatter = DefaultFormatter
 //@ config Parser = DefaultParser[[]byte]
 //@ constvar starts random randomMutex
